@@ -354,12 +354,20 @@ func checkC14(c *Check) {
 			val   ssa.Value
 		}
 		var tests []test
+		helperArg := map[*ssa.Call]ssa.Value{}
 		eachInstr(h, func(_ *ssa.BasicBlock, i ssa.Instruction) {
 			cl, ok := i.(*ssa.Call)
 			if !ok {
 				return
 			}
 			if o := calleeObj(cl); o == nil || o.Name() != "Contains" {
+				// a predicate helper that is exactly a membership test of a set field
+				if hp := staticCallee(cl); hp != nil && isRepoFn(hp) {
+					if fld, pi, ok := exactMembership(hp); ok && pi < len(cl.Call.Args) {
+						tests = append(tests, test{fld, cl})
+						helperArg[cl] = cl.Call.Args[pi]
+					}
+				}
 				return
 			}
 			ops := opsOf(cl)
@@ -373,6 +381,9 @@ func checkC14(c *Check) {
 		// argument of a membership test
 		argOf := func(v ssa.Value) ssa.Value {
 			if cl, ok := v.(*ssa.Call); ok {
+				if a, ok := helperArg[cl]; ok {
+					return a
+				}
 				ops := opsOf(cl)
 				if len(ops) >= 2 {
 					return ops[1]
@@ -446,4 +457,83 @@ func checkC14(c *Check) {
 				fmt.Sprintf("%s is reachable without a negative test of the exclude set (or a positive test of an admitted-applications set): excluded applications can be drawn", what))
 		})
 	}
+}
+
+// exactMembership: h is a bool predicate that is exactly "the set held in field
+// F of the receiver contains parameter k": every return gives the result of
+// that Contains call, the constant false, or the constant true on a path taken
+// only when the Contains call was true. A helper with any other way to answer
+// true tests something wider than membership and is not accepted as the guard.
+func exactMembership(h *ssa.Function) (string, int, bool) {
+	if len(h.Blocks) == 0 || h.Signature.Results().Len() != 1 || !isBoolType(h.Signature.Results().At(0).Type()) {
+		return "", 0, false
+	}
+	var contains *ssa.Call
+	field, pidx := "", -1
+	eachInstr(h, func(_ *ssa.BasicBlock, i ssa.Instruction) {
+		cl, ok := i.(*ssa.Call)
+		if !ok || contains != nil {
+			return
+		}
+		o := calleeObj(cl)
+		if o == nil || o.Name() != "Contains" {
+			return
+		}
+		ops := opsOf(cl)
+		if len(ops) < 2 {
+			return
+		}
+		_, fld, _, ok := loadedField(ops[0])
+		if !ok {
+			return
+		}
+		for k, prm := range h.Params {
+			if unspill(ops[1]) == ssa.Value(prm) {
+				contains, field, pidx = cl, fld, k
+			}
+		}
+	})
+	if contains == nil {
+		return "", 0, false
+	}
+	onTrue := map[*ssa.BasicBlock]bool{}
+	for _, br := range branchesOn(contains) {
+		for _, b := range h.Blocks {
+			if (b == br.TrueSucc || br.TrueSucc.Dominates(b)) && len(br.TrueSucc.Preds) == 1 {
+				onTrue[b] = true
+			}
+		}
+	}
+	for _, b := range h.Blocks {
+		ret, ok := b.Instrs[len(b.Instrs)-1].(*ssa.Return)
+		if !ok || b == h.Recover {
+			continue
+		}
+		v := retVal(ret, 0)
+		var leaves []ssa.Value
+		var preds []*ssa.BasicBlock
+		if ph, isPhi := v.(*ssa.Phi); isPhi {
+			leaves, preds = ph.Edges, ph.Block().Preds
+		} else {
+			leaves, preds = []ssa.Value{v}, []*ssa.BasicBlock{b}
+		}
+		for k, lv := range leaves {
+			switch {
+			case lv == ssa.Value(contains):
+			case isConstBool(lv, false):
+			case isConstBool(lv, true) && onTrue[preds[k]]:
+			default:
+				return "", 0, false
+			}
+		}
+	}
+	return field, pidx, true
+}
+
+func isConstBool(v ssa.Value, want bool) bool {
+	cv, ok := v.(*ssa.Const)
+	if !ok || cv.Value == nil || !isBoolType(cv.Type()) {
+		return false
+	}
+	return (cv.Value.String() == "true") == want
 }
